@@ -115,6 +115,100 @@ Authentic(r, ctx) ==
   /\ \A i \in 1..Len(r.servers) :
         SValid(r.servers[i].sig, IF r.mig.present THEN r.mig.newgca ELSE ctx.gca)
 
+-----------------------------------------------------------------------------
+(* The sync round (threadedSyncWithServer).  State of the identity part:    *)
+(*   cgca, cid          current GCA key and short id                        *)
+(*   csrv               server key -> [banned, loc, ports]                  *)
+(*   primary            the server reports are sent to                      *)
+(*   cdisk              [gca, id, srv] what the three files hold            *)
+(*   mutex              "free" | "held"  (c.mu)                             *)
+(*   rnd                [phase, failed, attempts, gca]: the round in        *)
+(*                      progress; gca is the GCA key read at its beginning  *)
+VARIABLES cgca, cid, csrv, primary, cdisk, mutex, rnd
+svars == <<cgca, cid, csrv, primary, cdisk, mutex, rnd>>
+
+Idle == [phase |-> "idle", failed |-> {}, attempts |-> 0, gca |-> "none"]
+Entry(s) == [banned |-> s.banned, loc |-> s.loc, ports |-> s.ports]
+
+(* merge rule: an entry is added if new, replaced only to become banned *)
+RECURSIVE FoldServers(_, _)
+FoldServers(m, list) ==
+  IF list = <<>> THEN m
+  ELSE LET s == Head(list) IN
+       FoldServers(IF s.key \notin DOMAIN m \/ s.banned
+                   THEN [x \in DOMAIN m \cup {s.key} |-> IF x = s.key THEN Entry(s) ELSE m[x]]
+                   ELSE m, Tail(list))
+
+Candidates == {k \in DOMAIN csrv : ~csrv[k].banned /\ k \notin rnd.failed}
+
+RoundBegin ==     \* first critical section: read primary and GCA key
+  /\ rnd.phase = "idle" /\ mutex = "free"
+  /\ rnd' = [phase |-> "picking", failed |-> {}, attempts |-> 0, gca |-> cgca]
+  /\ UNCHANGED <<cgca, cid, csrv, primary, cdisk, mutex>>
+
+(* one attempt: under c.mu pick a random server that is neither banned nor  *)
+(* failed in this round; the previous pick, if any, has failed              *)
+Pick(k) ==
+  /\ rnd.phase = "picking" /\ rnd.attempts < 5 /\ mutex = "free"
+  /\ k \in Candidates
+  /\ primary' = k
+  /\ rnd' = [rnd EXCEPT !.attempts = @ + 1]
+  /\ UNCHANGED <<cgca, cid, csrv, cdisk, mutex>>
+
+AttemptFailed ==
+  /\ rnd.phase = "picking" /\ rnd.attempts > 0
+  /\ rnd' = [rnd EXCEPT !.failed = @ \cup {primary}]
+  /\ UNCHANGED <<cgca, cid, csrv, primary, cdisk, mutex>>
+
+(* giving up: five attempts failed, or no candidate is left.  The second    *)
+(* path returned with c.mu held before the repair (deviation "lockleak").   *)
+GiveUp ==
+  /\ rnd.phase = "picking"
+  /\ (rnd.attempts >= 5 \/ Candidates = {})
+  /\ rnd' = Idle
+  /\ mutex' = IF Candidates = {} /\ rnd.attempts < 5 /\ "lockleak" \in CDefects THEN "held" ELSE mutex
+  /\ UNCHANGED <<cgca, cid, csrv, primary, cdisk>>
+
+(* a reply that passed every check is applied under c.mu: migration or merge,*)
+(* files first, then memory                                                 *)
+ApplyReply(r) ==
+  /\ rnd.phase = "picking" /\ rnd.attempts > 0 /\ mutex = "free"
+  /\ ParseOutcome(r, [server |-> primary, gca |-> rnd.gca, dev |-> r.key]) = "ok"
+  /\ IF r.mig.present /\ r.mig.newgca # cgca
+     THEN LET m == FoldServers(<<>>, r.servers) IN
+          /\ cgca' = r.mig.newgca /\ cid' = r.mig.newid /\ csrv' = m
+          /\ cdisk' = [gca |-> r.mig.newgca, id |-> r.mig.newid, srv |-> m]
+     ELSE LET m == FoldServers(csrv, r.servers) IN
+          /\ csrv' = m /\ cdisk' = [cdisk EXCEPT !.srv = m]
+          /\ UNCHANGED <<cgca, cid>>
+  /\ rnd' = Idle
+  /\ UNCHANGED <<primary, mutex>>
+
+(* restart: identity and list come back from the files; some non-banned     *)
+(* server becomes primary                                                   *)
+ClientReload(k) ==
+  /\ cgca' = cdisk.gca /\ cid' = cdisk.id /\ csrv' = cdisk.srv
+  /\ (k \in DOMAIN cdisk.srv /\ ~cdisk.srv[k].banned) \/
+     (k = "zero" /\ \A x \in DOMAIN cdisk.srv : cdisk.srv[x].banned)
+  /\ primary' = k /\ mutex' = "free" /\ rnd' = Idle
+  /\ UNCHANGED cdisk
+
+(* C11 / C17 *)
+LockFreeWhenIdle == rnd.phase = "idle" => mutex = "free"
+PrimaryNotBannedAtPick == rnd.phase = "picking" /\ rnd.attempts > 0 /\ primary \notin rnd.failed
+                            => primary \in DOMAIN csrv
+PersistEqualsAdopted == cdisk = [gca |-> cgca, id |-> cid, srv |-> csrv]
+BannedMonotoneStep ==
+  \A k \in DOMAIN csrv : csrv[k].banned /\ cgca' = cgca => (k \in DOMAIN csrv' /\ csrv'[k].banned)
+EntryFrozenStep ==
+  \A k \in DOMAIN csrv : (cgca' = cgca /\ k \in DOMAIN csrv' /\ csrv'[k] # csrv[k]) => csrv'[k].banned
+DiskBannedMonotoneStep ==
+  \A k \in DOMAIN cdisk.srv : cdisk.srv[k].banned /\ cdisk'.gca = cdisk.gca =>
+     (k \in DOMAIN cdisk'.srv /\ cdisk'.srv[k].banned)
+
+SInit == /\ cgca = "none" /\ cid = 0 /\ csrv = <<>> /\ primary = "zero"
+         /\ cdisk = [gca |-> "none", id |-> 0, srv |-> <<>>] /\ mutex = "free" /\ rnd = Idle
+
 CInit == hist = <<>> /\ horigin = 0 /\ latest = 0 /\ efile = <<>> /\ sent = <<>>
 
 -----------------------------------------------------------------------------
